@@ -150,7 +150,14 @@ func (p *PropertySchema) Unserialize(data any) (any, error) {
 func (p *PropertySchema) ValidateCompatibility(typeOrData any) error {
 	schemaType, ok := typeOrData.(*PropertySchema)
 	if ok {
-		return p.TypeValue.ValidateCompatibility(schemaType.TypeValue)
+		if err := p.TypeValue.ValidateCompatibility(schemaType.TypeValue); err != nil {
+			return err
+		}
+		if schemaType.Required() {
+			// A producer that always supplies the property can never be consumed by a schema that refuses every use of it.
+			return p.disabledError()
+		}
+		return nil
 	}
 	err := p.TypeValue.ValidateCompatibility(typeOrData)
 	if err != nil {
